@@ -173,6 +173,22 @@ def chgScan (st : Nat) : List Nat → List Nat → List Nat
 def fileChg (f : File) (st : Nat) (ids : List Nat) : File × Bool :=
   ({ f with mwords := chgScan st ids.eraseDups f.mwords }, true)
 
+/-- `chg_multi_status` interrupted after `k` of its in-place stores (one per changed entry): the walk
+    stops where the writer was killed. -/
+def chgScanK (st : Nat) : Nat → List Nat → List Nat → List Nat
+  | _, _, [] => []
+  | k, ids, m :: ms =>
+    if wStatus m = 0 then m :: ms
+    else if wStatus m > 1 ∧ ids.contains (wId m) then
+      if wStatus m = st then m :: chgScanK st k (ids.erase (wId m)) ms   -- `status != new_status` is false: no store
+      else match k with
+        | 0 => m :: ms
+        | k + 1 => pack st (wDepth m) (wId m) :: chgScanK st k (ids.erase (wId m)) ms
+    else m :: chgScanK st k ids ms
+
+def fileChgPrefix (f : File) (st : Nat) (ids : List Nat) (k : Nat) : File :=
+  { f with mwords := chgScanK st k ids.eraseDups f.mwords }
+
 /-- The item `purge` re-packs (`append_moc_bytes(status, id, depth, ...)`) and copies from a row. -/
 def rowItem (hdr : Nat) (data : List Nat) (r : Nat × Nat × Nat) : Item :=
   (pack (wStatus r.1) (wDepth r.1) (wId r.1), slice data (r.2.1 - hdr) (r.2.2 - hdr))
